@@ -32,15 +32,29 @@ SPECIAL = st.lists(st.sampled_from(['!', ':', '/', '?', '#', '$', '&', "'", '(',
 SCHEMES_ANY = ['rtsp', 'rtmp', 'http', 'https', 's3', 'file', 'mqtt', 'ftp', 'x-cam+v1.2']
 
 
+USER_SPECIAL = st.sampled_from(['', '', '', '/', '?', '#', '!', '$', '%2F', '.', '-', '\\', 'CORP/'])
+
+
 @st.composite
 def cred(draw):
     u, a, b = draw(TOK), draw(TOK), draw(TOK)
     mid = draw(SPECIAL)
-    return {'user': 'U' + u, 'pa': 'Pa' + a, 'pb': 'Pb' + b, 'mid': mid}
+    # user: RFC userinfo characters (no ':' - it ends the user); 'umid' splits it in two distinctive halves; now and then no user at all
+    kind = draw(st.sampled_from(['plain', 'plain', 'special', 'empty']))
+    c = {'user': 'U' + u, 'pa': 'Pa' + a, 'pb': 'Pb' + b, 'mid': mid}
+    if kind == 'special':
+        c['umid'], c['user2'] = draw(USER_SPECIAL), 'Ux' + draw(TOK)
+    if kind == 'empty':
+        c['user'] = ''
+    return c
+
+
+def user_of(c):
+    return c['user'] + (c.get('umid', '') + c['user2'] if 'user2' in c else '')
 
 
 def uri_of(c, scheme, host='cam.example.com', port='', path='/live/stream1', query=''):
-    return f"{scheme}://{c['user']}:{c['pa']}{c['mid']}{c['pb']}@{host}{port}{path}{query}"
+    return f"{scheme}://{user_of(c)}:{c['pa']}{c['mid']}{c['pb']}@{host}{port}{path}{query}"
 
 
 @st.composite
@@ -185,6 +199,9 @@ def build_config(case):
     if embed and case['cls'] == 'VideoOut':
         uri = uri_of(c, 'http')           # "this filter only accepts video file:// and rtsp:// outputs, not '<uri>'"
     if case['where'] == 'io':
+        if c.get('umid') == '!':
+            c = {**c, 'umid': '$'}      # '!' followed by an identifier-like user half would read as an option in the text forms
+            uri = uri_of(c, 'http' if embed and case['cls'] == 'VideoOut' else case['scheme'])
         key = 'sources' if case['cls'] == 'VideoIn' else 'outputs'
         field = 'source' if case['cls'] == 'VideoIn' else 'output'
         text = uri + case['opts']
@@ -234,8 +251,8 @@ class CapClient:
 
 
 def leaks(text, c):
-    for name, tok in (('user', c['user']), ('password', c['pa']), ('password', c['pb'])):
-        if tok in text:
+    for name, tok in (('user', c['user']), ('user', c.get('user2')), ('password', c['pa']), ('password', c['pb'])):
+        if tok and tok in text:
             return name, tok
     return None
 
@@ -335,12 +352,12 @@ def run_mask(case):
             out = fn(text)
         except Exception as e:
             return bad(f'{fn.__name__} raised {type(e).__name__}', f'raises:{fn.__name__}')
-        toks = (c['user'], c['pa'], c['pb']) if fn is utils.hide_uri_users_and_pwds else (c['pa'], c['pb'])
+        toks = (c['user'], c.get('user2'), c['pa'], c['pb']) if fn is utils.hide_uri_users_and_pwds else (c['pa'], c['pb'])
         for tok in toks:
-            if tok in out:
+            if tok and tok in out:
                 return bad(f'{fn.__name__}({text!r}) = {out!r} still shows part of the credential', f'mask-leak:{fn.__name__}', classes)
         if not case['prefix'] and not case['suffix'] and not case.get('two'):
-            shown = c['user'] + ':' + MASK if fn is utils.hide_uri_pwds else MASK
+            shown = user_of(c) + ':' + MASK if fn is utils.hide_uri_pwds else MASK
             exp = f"{case['scheme']}://{shown}@cam.example.com{case['port']}{case['path']}"
             if out != exp:
                 return bad(f'{fn.__name__}({text!r}) = {out!r}, expected {exp!r} (only the userinfo replaced)', f'mask-shape:{fn.__name__}', classes)
